@@ -56,6 +56,7 @@ type SendStep struct {
 	CancelPoint string
 	CancelOcc   int
 	Actions     []byte
+	Reentrant   *model.Op      // registry call made from inside the first node invocation of this Send
 	CtxKind     int            // context flavour, see sched.WithKind
 	ErrKinds    map[string]int // by node id: flavour of the error a failing node returns
 }
@@ -76,7 +77,11 @@ func (s *SendStep) String() string {
 		}
 	}
 	sort.Strings(eks)
-	return fmt.Sprintf("Send(%s,{%s},%s,ctxkind%d%s)", s.ET, strings.Join(ks, ","), c, s.CtxKind, strings.Join(eks, ","))
+	re := ""
+	if s.Reentrant != nil {
+		re = ",reentrant:" + s.Reentrant.String()
+	}
+	return fmt.Sprintf("Send(%s,{%s},%s,ctxkind%d%s%s)", s.ET, strings.Join(ks, ","), c, s.CtxKind, strings.Join(eks, ","), re)
 }
 
 type Step struct {
@@ -148,6 +153,19 @@ func GenSend(t *rapid.T, distinctRoots bool, cancelWeight int) *SendStep {
 	}
 	s.Actions = rapid.SliceOfN(rapid.SampledFrom([]byte{0, 0, 0, 1, 1, 2, 3}), 0, 12).Draw(t, "actions")
 	s.CtxKind = rapid.SampledFrom([]int{0, 0, 1, 1, 2, 3}).Draw(t, "ctxKind")
+	if rapid.IntRange(0, 5).Draw(t, "reentrant") == 0 {
+		var op model.Op
+		switch rapid.IntRange(0, 2).Draw(t, "reKind") {
+		case 0:
+			op = GenRegPipe(t, distinctRoots)
+			op.ET = s.ET
+		case 1:
+			op = model.Op{K: "rmpipe", ET: s.ET, P: rapid.SampledFrom(PipeIDs).Draw(t, "rePid")}
+		default:
+			op = model.Op{K: "rpan", ET: s.ET, P: rapid.SampledFrom(PipeIDs).Draw(t, "rePid")}
+		}
+		s.Reentrant = &op
+	}
 	s.ErrKinds = map[string]int{}
 	for id, b := range s.Script {
 		if b == nodes.Fail || b == nodes.FailEv {
